@@ -324,6 +324,19 @@ def run_level(ctx, corrs, tr, ix, api_level):
         word = "".join(it["k"] if it["k"] in "PBARTSM" else "c" for it in items)
         minute = tr.cfg.get("frequency", "1d") == "1m"
         ok = bool((DAY_SIGNAL if tr.cfg["sim"].get("signal") else DAY_1M if minute else DAY_1D).match(word))
+        if ok and minute:
+            # a call belongs to the bar the broker has ALREADY processed: whatever sends orders at a bar (handle_bar, scheduled functions) runs after the broker's on_bar of that bar
+            last_r = None
+            for it in tr.rec.inputs:
+                if it["k"] == "R":
+                    last_r = it.get("dt")
+                elif it["k"] in ("B", "A"):
+                    last_r = None
+                elif it["k"] == "O" and last_r is not None and it.get("dt") is not None and it["dt"] != last_r and not it.get("depth"):
+                    ok = False
+                    corrs["grammar"].add(False, {"order_created_at": str(it["dt"]), "last_bar_the_broker_processed": str(last_r), "run_seed": getattr(tr, "run_seed", None),
+                                                 "note": "an order was created at a bar before the broker's on_bar of that bar ran"})
+                    return
         corrs["grammar"].add(ok, {"days": word.count("P"), "calls": word.count("c")} if ok else {"inputs": word[:400], "run_seed": getattr(tr, "run_seed", None)})
     if api_level:
         ctx.stats["world_api_calls_sized_by_the_model"] += len([1 for it in items if it["k"] == "K"])
